@@ -68,9 +68,7 @@ UNMERGABLE_ARGS = set(exp.Select.arg_types) - {
 # without getting wrapped in parentheses, because the precedence won't be altered.
 SAFE_TO_REPLACE_UNWRAPPED = (
     exp.Column,
-    exp.EQ,
     exp.Func,
-    exp.NEQ,
     exp.Paren,
 )
 
